@@ -33,6 +33,7 @@ if TYPE_CHECKING:
     from esp_kconfiglib.kconfig_parser import Parser
 
 from esp_kconfiglib.core import KconfigError
+from esp_kconfiglib.core import unescape
 from esp_kconfiglib.report import PRAGMA_PREFIX
 
 
@@ -323,6 +324,19 @@ class KconfigExpression(Token):
 expression = KconfigExpression()
 
 
+# One token of an option line: a run of non-blank characters in which quoted strings (with backslash escapes)
+# are kept in one piece, including the whitespace inside them.
+_option_token_regex = re.compile(r"""(?:"(?:\\.|[^"\\])*"|'(?:\\.|[^'\\])*'|\S)+""")
+
+
+def split_option_line(line: str) -> List[str]:
+    """
+    Splits an option line on whitespace. Unlike str.split(), whitespace (and keywords such as "if")
+    inside a quoted string does not end the token: 'default "a  b" if X' -> ['default', '"a  b"', 'if', 'X'].
+    """
+    return _option_token_regex.findall(line)
+
+
 class KconfigOptionBlock(KconfigBlock):
     """
     From the nature of pyparsing, if some ParserElement does not succeed,
@@ -400,14 +414,9 @@ class KconfigOptionBlock(KconfigBlock):
             quote_type = tokens[0][0]
             if quote_type not in ('"', "'"):
                 raise ParseException(instring, loc, "Error parsing option block: prompt missing leading quote.", self)
-            current_token_idx = 0
-            for token in tokens:
-                if not token.endswith(quote_type):
-                    current_token_idx += 1
-                else:
-                    break
 
-            if not tokens[current_token_idx].endswith(quote_type):
+            # split_option_line() keeps a quoted string in one token
+            if len(tokens[0]) < 2 or not tokens[0].endswith(quote_type):
                 raise ParseException(
                     instring,
                     current_loc,
@@ -418,7 +427,7 @@ class KconfigOptionBlock(KconfigBlock):
                     self,
                 )
 
-            return " ".join(tokens[: current_token_idx + 1])[1:-1], current_token_idx + 1
+            return unescape(tokens[0][1:-1]), 1
 
         # Unfortunately, pyparsing sometimes points KconfigOptionBlock to the end of the previous line,
         # sometimes directly to the start of current line,
@@ -447,7 +456,7 @@ class KconfigOptionBlock(KconfigBlock):
                 current_loc += len(line) + 1  # +1 for \n
                 continue
 
-            tokens = line.strip().split()
+            tokens = split_option_line(line)
 
             # If the line does not contain any option keyword, the option block ends
             if not is_line_with_option(tokens):
